@@ -79,7 +79,7 @@ def solve_and_judge(case, which, in_situ=True):
     if any(z['gov'].get('asset_markets_in') and z['gov'].get('deposits') for z in spec['zones']):
         rec.count('models.judged.with_deposit_market_away_from_its_issuer')
     if spec['imports'] and case.get('build_opts', {}).get('interleave_model'):
-        rec.count('models.judged.with_cross_zone_supplier_and_interleaved_models')
+        rec.count('models.judged.with_cross_zone_supplier_and_interleaved_models', 'models.judged.with_run_via_steps')
     rec.count('exact.variables', len(E.names))
     rec.count('exact.frozen_equations', len(E.frozen))
     nontrivial = J.max_flow > Fraction(1, 1000)
@@ -113,7 +113,9 @@ def gen_case(rng, idx, tier, emphasis=None):
         spec = M.gen_spec(rng)
     return {'kind': 'model', 'spec': spec, 'ext_first': rng.random() < 0.7,
             'build_opts': {'query_zone': rng.random() < 0.3, 'interleave_model': idx % 2 == 0 or rng.random() < 0.2,   # r == 2 is even
-                           'region_default_currency': rng.random() < 0.4}}
+                           'region_default_currency': rng.random() < 0.4,
+                           # the model is run through the GUI's step list instead of main()
+                           'run_via_steps': idx % 4 == 3}}
 
 
 class C01(object):
